@@ -7,7 +7,7 @@
 From Coq Require Import List Bool NArith ZArith.
 Import ListNotations.
 From Setec Require Import Base.SMap Client.Store Client.StoreInv Client.CacheDoc Client.CacheDocProofs
-                          Client.CacheHist Client.CacheHistProofs Client.CacheFile.
+                          Client.CacheHist Client.CacheHistProofs Client.CacheInitProofs Client.CacheFile.
 
 Section C13.
 (* base64 (encoding/base64.StdEncoding) enters only through its round-trip law *)
@@ -27,6 +27,32 @@ Proof. exact (decode_encode_doc b64enc b64dec b64_round). Qed.
 (* such a document is a valid cache (so it is not discarded) *)
 Theorem C13_own_document_valid : forall s : store bytes, good s -> cache_valid (rents (m s)) = true.
 Proof. intros s [[S NS H] R NE]. exact (cache_valid_rents NS NE S). Qed.
+
+(* ---- CONSTRUCTION.  Whatever tree the cache content parses to, the decoder only yields canonical
+   maps whose versions fit uint32 and stamps int64; the store NewStore builds from it (or from no
+   cache), with a service whose versions fit uint32, is a good state - so the all-histories
+   theorems below apply from the first event on; and when construction writes nothing (every
+   declared name was cached) the cache content already decodes to exactly the constructed state,
+   i.e. to what `encode_cache (doc s)` decodes to (C13_round_trip), and nothing was requested. *)
+Theorem C13_decoder_output_fits : forall j d, decode_cache b64dec j = Some d -> sorted d /\ rrange d.
+Proof. exact (decode_ok b64dec). Qed.
+
+Theorem C13_construction_good : forall (c : cache_input) names allow_lookup age ans now (s : store bytes) fx reqs,
+  new_store (match c with Some (Some j) => decode_cache b64dec j | _ => None end) names allow_lookup age ans now = Some (s, fx, reqs) ->
+  (forall n v b, ans n = Some (v, b) -> u32 v) -> i64 now -> good s.
+Proof.
+  intros c names al age ans now s fx reqs H UA Tn. eapply new_store_good; eauto.
+  intros d E. destruct c as [[j|]|]; try discriminate. eapply decode_ok; eauto.
+Qed.
+
+Theorem C13_unwritten_cache_is_state : forall j d names allow_lookup age ans now (s : store bytes) reqs,
+  decode_cache b64dec j = Some d -> cache_valid d = true ->
+  new_store (Some d) names allow_lookup age ans now = Some (s, [], reqs) ->
+  rents (m s) = d /\ reqs = [].
+Proof.
+  intros j d names al age ans now s reqs D CV H. eapply unwritten_cache_is_state; eauto.
+  destruct (decode_ok b64dec j D). auto.
+Qed.
 
 (* ---- FLUSH POINTS.  Every event either writes nothing and changes nothing but access stamps,
    or writes the document of the WHOLE resulting state (never a part, never the old state). *)
@@ -131,6 +157,9 @@ End C13.
 
 Print Assumptions C13_round_trip.
 Print Assumptions C13_own_document_valid.
+Print Assumptions C13_decoder_output_fits.
+Print Assumptions C13_construction_good.
+Print Assumptions C13_unwritten_cache_is_state.
 Print Assumptions C13_flush_is_whole_state.
 Print Assumptions C13_flush_after_init.
 Print Assumptions C13_flush_after_lookup.
